@@ -65,6 +65,9 @@ def run_bp(ctx, n):
         th = [str(i) for i in range(prog.count('/') + 1)]
         for v in th:
             for point in range(1, 40 if ctx.quick() else 80, 2): cases.append((prog, parking(th, point, 1, v, 1)))
+            # a signal whose handler uses the read side, delivered at each step of the thread's first read-side call (its registration): "signals cannot interrupt registration"
+            fl = v + chr(ord('a') + int(v))
+            for k in range(0, 30 if ctx.quick() else 60): cases.append((prog, fl * k + '^' + v + fl * 4))
     while len(cases) < n:
         prog = ctx.rng.choice(BPPROGS); th = [str(i) for i in range(prog.count('/') + 1)]
         cases.append((prog, bursty(ctx.rng, th, lo=60, hi=500, flush=ctx.rng.choice([0.0, 0.05, 0.3]), means=(1, 3, 10, 30, 60))))
